@@ -357,6 +357,27 @@ theorem events_panic_contained (fx : Fixes) (hf : fx.poll = true) (s : State) (h
 example : (run current settledS [.pollPanic, .pollPanic, .tick]).map (fun s => (s.crashed, s.core.nRun, s.core.spc, s.core.panicked)) =
     some (false, 1, .parked, false) := by decide
 
+/-- OCR2 report coordinator: a panic inside its log poll (log provider, encoder) is turned into an error by
+    `safeCheckLogs`: nothing changes — the process survives, the poll loop is still running, the next poll can take
+    place and can panic again -/
+theorem v2_poll_panic_contained (fx : Fixes) (hf : fx.v2poll = true) (s : State) (hc : s.crashed = false) (hr : 0 < s.core.nRun) :
+    step fx s .v2PollPanic = some s := by
+  have : s.core.nRun ≠ 0 := by omega
+  simp [step, hc, hf, this]
+
+example : (run current settledS [.v2PollPanic, .v2PollPanic, .v2PollPanic]).map (fun s => (s.crashed, s.core.nRun)) = some (false, 1) := by decide
+
+/-- before "fix: v2 coordinator: a panic while polling perform and stale report logs no longer kills the process":
+    `run` is a bare goroutine (`go rc.run()`), nothing recovers — the process terminates -/
+theorem v2_poll_panic_escapes_old (fx : Fixes) (hf : fx.v2poll = false) (s : State) (hc : s.crashed = false) (hr : 0 < s.core.nRun) :
+    ∃ s', step fx s .v2PollPanic = some s' ∧ s'.crashed = true ∧ ∀ f l, step f s' l = none := by
+  have : s.core.nRun ≠ 0 := by omega
+  refine ⟨{ s with crashed := true }, ?_, rfl, ?_⟩
+  · simp [step, hc, hf, this]
+  · intro f l; cases l <;> simp [step]
+
+example : (run { current with v2poll := false } settledS [.v2PollPanic]).map (·.crashed) = some true := by decide
+
 /-- REPEATED panics: any number of contained panics — in Process goroutines, in worker goroutines, in the coordinator's
     poll — interleaved in any order with ticks, jobs and returns leave the recoverer / service state exactly as it was
     and the process alive: nothing about the protocol is consumed per panic (no cool-down, no restart, no flag), so
@@ -386,7 +407,7 @@ theorem repeated_panics_contained :
           split at hstep
           · simp at hstep
           · simp at hstep; subst hstep; simp
-        | pPanic | wPanic | pollPanic =>
+        | pPanic | wPanic | pollPanic | v2PollPanic =>
           simp only [step, current] at hstep
           split at hstep
           · simp at hstep
@@ -456,7 +477,7 @@ theorem run_projects_to_core (fx : Fixes) :
         split at hstep
         · simp at hstep
         · simp at hstep; rw [← hstep] at hcs; exact ⟨cs, hcs⟩
-      | pPanic | wPanic =>
+      | pPanic | wPanic | v2PollPanic =>
         simp only [step] at hstep
         split at hstep
         · simp at hstep
@@ -590,17 +611,21 @@ private theorem predict_panic (fx : Fixes) (cs : Case) (t : Nat) (s : State)
     predict fx cs t 0 0 true 1 = panicObs cs t s.crashed s.core.nRun := by
   simp [predict, panicObs, hrun, pc_a, pc_b, pc_ok]
 
-/-- on the current tree the model predicts, for a panic at ANY of the seven sites — the six provider / pipeline /
-    post-processor calls and a panic that escapes the (restartable) result store's Start —, that the process survives
+/-- on the current tree the model predicts, for a panic at ANY of the thirteen sites — v3: the six provider / pipeline /
+    post-processor calls and a panic that escapes the (restartable) result store's Start; OCR2: the report coordinator's
+    log provider (two calls) and encoder on its poll loop, the polling observer's registry, encoder and runner on its
+    head loop (behind RecoverableService: cool-down and restart) —, that the process survives
     and the flow resumes (next tick / poll; for the escaping panic: after the recoverer's cool-down and restart) —
     and the oracle accepts that prediction -/
 theorem spec_model_panic_contained (cs : Case) (t : Nat) (hs : cs.scenario = "panic")
     (h : cs.panicSite = "logProvider" ∨ cs.panicSite = "recoveryProvider" ∨ cs.panicSite = "upkeepGetter" ∨
          cs.panicSite = "stateUpdater" ∨ cs.panicSite = "pipeline" ∨ cs.panicSite = "eventsProvider" ∨
-         cs.panicSite = "resultStoreGC") :
+         cs.panicSite = "resultStoreGC" ∨
+         cs.panicSite = "v2PerformLogs" ∨ cs.panicSite = "v2StaleLogs" ∨ cs.panicSite = "v2CoordEncoder" ∨
+         cs.panicSite = "v2ActiveUpkeeps" ∨ cs.panicSite = "v2ObsEncoder" ∨ cs.panicSite = "v2CheckUpkeep") :
     spec cs (predict current cs t 0 0 true 1) = true := by
   have key : ∃ s, run current (faultStart cs.panicSite) (faultSched current cs.panicSite) = some s ∧ s.crashed = false ∧ s.core.nRun = 1 := by
-    rcases h with h | h | h | h | h | h | h <;> rw [h] <;> exact run_site current _ false 1 (by decide)
+    rcases h with h | h | h | h | h | h | h | h | h | h | h | h | h <;> rw [h] <;> exact run_site current _ false 1 (by decide)
   obtain ⟨s, hrun, hc, hn⟩ := key
   rw [predict_panic current cs t s hrun, hc, hn]
   simp [spec, panicObs, panicOk, Obs.leak, panicClauseApplies, resumeBound, hs]
@@ -629,6 +654,18 @@ theorem spec_reports_service_panic_not_resumed_old (cs : Case) (t : Nat) (h : cs
   · simp [spec, panicObs, panicOk, Obs.leak, panicClauseApplies, hs]
   · have hcl : classify cs (panicObs cs t false 0) = .panicNotResumed := by
       simp [classify, panicObs, Obs.leak, panicClauseApplies, hs]
+    unfold explain; rw [hcl]; rfl
+
+/-- without the v2 coordinator fix the model predicts that a panic in its log poll kills the process; the oracle says so -/
+theorem spec_reports_v2_poll_panic_old (cs : Case) (t : Nat) (h : cs.panicSite = "v2PerformLogs") :
+    spec cs (predict { current with v2poll := false } cs t 0 0 true 1) = false ∧
+    explain cs (predict { current with v2poll := false } cs t 0 0 true 1) = s!"panic-escaped: a panic injected in {cs.panicSite} terminated the process" := by
+  obtain ⟨s, hrun, hc, hn⟩ := run_site { current with v2poll := false } "v2PerformLogs" true 1 (by decide)
+  rw [← h] at hrun
+  rw [predict_panic _ cs t s hrun, hc, hn]
+  constructor
+  · simp [spec, panicObs]
+  · have hcl : classify cs (panicObs cs t true 1) = .panicEscaped := by simp [classify, panicObs]
     unfold explain; rw [hcl]; rfl
 
 /-! ### tie theorems: the model's decisions ARE the decision expressions regenerated from the source (`Gen.Src`) -/
